@@ -412,7 +412,19 @@ pub fn run(ctx: &mut Ctx) {
             }
             incoming.push(p);
         }
-        match verif::socks5_udp_exchange(server, sends.clone(), &relay, incoming.clone()).await {
+        // (a panic on a relayed datagram is reported with the datagrams, not as a crashed suite)
+        let exchanged = futures::FutureExt::catch_unwind(std::panic::AssertUnwindSafe(verif::socks5_udp_exchange(server, sends.clone(), &relay, incoming.clone()))).await;
+        let exchanged = match exchanged {
+            Ok(x) => x,
+            Err(_) => {
+                ctx.oracle_failure("panic", &format!("the SOCKS5 UDP association panicked on one of these datagrams from the relay: {}", incoming.iter().map(|p| hex(p)).collect::<Vec<_>>().join(" ")));
+                for pkt in incoming.iter() {
+                    ctx.emit(&format!("c15 udpunwrap {}", hex(pkt)), "panic");
+                }
+                return;
+            }
+        };
+        match exchanged {
             Ok((seen, results)) => {
                 for ((dst, data), wire) in sends.iter().zip(seen.iter()) {
                     ctx.emit(&format!("c15 udpwrap {} {}", sock_tok(dst), hex(data)), &hex(wire));
